@@ -49,6 +49,7 @@ func VerifH_cnt() {
 
 type verifSnap struct {
 	home      [vK]*subConnRef
+	chanOf    [vK]*subConnRef
 	bound     [vK]bool
 	boundSC   [vK]balancer.SubConn
 	fb        [vK]balancer.SubConn
@@ -81,6 +82,22 @@ type verifSnap struct {
 	addrTagGb int
 }
 
+// chanOf is the channel a key is bound on: the slot that owns the connection affinityMap names
+// (whether or not that connection is still a pool member); nil if unbound.
+func (w *verifWorld) chanOf(k string) *subConnRef {
+	sc, ok := w.gb.affinityMap[k]
+	if !ok {
+		return nil
+	}
+	var r *subConnRef
+	for j := vR - 1; j >= 0; j-- {
+		if w.refs[j].subConn == sc {
+			r = w.refs[j]
+		}
+	}
+	return r
+}
+
 func (w *verifWorld) sc(i int) *verifSC {
 	if i < vM {
 		return w.scs[i]
@@ -93,6 +110,7 @@ func (w *verifWorld) snap() *verifSnap {
 	s := &verifSnap{}
 	for x := 0; x < vK; x++ {
 		s.home[x] = w.home(w.keys[x])
+		s.chanOf[x] = w.chanOf(w.keys[x])
 		s.boundSC[x], s.bound[x] = gb.affinityMap[w.keys[x]]
 		s.fb[x], s.hasFb[x] = gb.fallbackMap[w.keys[x]]
 	}
@@ -225,13 +243,9 @@ func VerifH_usc() {
 		verifAssert(post.list[j] == pre.list[j], "C07,C09: state report changed a channel's position")
 	}
 	// C01(5): no state report - in particular no refresh swap - moves a key to another channel
+	// (the channel of a key is the slot that owns the connection the key is bound to)
 	for x := 0; x < vK; x++ {
-		h0, h1 := pre.home[x], post.home[x]
-		gone := verifAnd(s == connectivity.Shutdown, verifAnd(h0 != nil, verifAnd(known, !isRepl)))
-		if h0 != nil {
-			gone = verifAnd(gone, pre.boundSC[x] == sc)
-		}
-		verifAssert(verifOr(h1 == h0, verifAnd(gone, h1 == nil)), "C01: a state report moved a bound key to another channel")
+		verifAssert(post.chanOf[x] == pre.chanOf[x], "C01: a state report moved a bound key to another channel")
 		verifAssert(post.bound[x] == pre.bound[x], "C01: a state report bound or unbound a key")
 	}
 	verifObserve("pubCount", uint64(cc.pubCount))
